@@ -7,7 +7,11 @@ without a promotion move at the root, with empty repetition history — and the 
 assembled from: a completed deepening pass reports the plain-minimax value of the root whatever
 the move order (`pass_exact`), and plain minimax is colour-symmetric (`rootValue_mirror`).
 
-`searchPasses b tf k` lists the (depth, score) of the passes the search with expiry index `k`
+The statements are about the shipped configuration `Engine::default()`, i.e. `positional = false`, the leading argument
+`false` of `searchPasses`, `pass`, `rootValue`, `eval` (with the piece-square maps the evaluation is not colour-symmetric;
+the exactness theorems hold for both values of the flag: `Proofs.Minimax.pass_exact`, `searchPasses_exact`, `search_reports`).
+
+`searchPasses false b tf k` lists the (depth, score) of the passes the search with expiry index `k`
 completes; `Proofs.Minimax.search_reports` (Proofs/Minimax/Exact.lean, audited with this file) ties it to
 what `search` returns: the last completed pass, or the initial values if none completed.  `Board.mirror` swaps the colours and
 flips the ranks (Spec/Mirror.lean); `abs_mirror` says it is the colour mirror of the rules.
@@ -23,7 +27,7 @@ depth `d` (any two expiry indices), the reported scores are negations of each ot
 in n becomes a black mate in n, a numeric score changes sign -/
 theorem search_mirror (b : Board) (hwf : b.WF = true)
     (hnp : ∀ m ∈ mvsOf (legals b), m.piece = none) (k k' d : Nat) (s s' : Score)
-    (h : (d, s) ∈ searchPasses b [] k) (h' : (d, s') ∈ searchPasses b.mirror [] k') :
+    (h : (d, s) ∈ searchPasses false b [] k) (h' : (d, s') ∈ searchPasses false b.mirror [] k') :
     s' = negScore s :=
   Proofs.Minimax.search_mirror b hwf hnp k k' d s s' h h'
 
@@ -33,18 +37,18 @@ theorem pass_exact (b : Board) (hwf : b.WF = true) (tf : ThreeFold) (k depth : N
     (bestMv : Option Move) (st st' : St) (p : Pass)
     (hnp : ∀ m ∈ mvsOf (legals b), m.piece = none)
     (hb : ∀ m, bestMv = some m → m ∈ mvsOf (legals b))
-    (h : pass k b b.turn tf depth bestMv st = (some p, st')) :
-    p.score = rootValue b tf depth ∧ (∀ m, p.best = some m → m ∈ mvsOf (legals b)) :=
-  Proofs.Minimax.pass_exact b hwf tf k depth bestMv st st' p hnp hb h
+    (h : pass false k b b.turn tf depth bestMv st = (some p, st')) :
+    p.score = rootValue false b tf depth ∧ (∀ m, p.best = some m → m ∈ mvsOf (legals b)) :=
+  Proofs.Minimax.pass_exact false b hwf tf k depth bestMv st st' p hnp hb h
 
 theorem searchPasses_exact (b : Board) (hwf : b.WF = true) (tf : ThreeFold) (k : Nat)
     (hnp : ∀ m ∈ mvsOf (legals b), m.piece = none) :
-    ∀ ds ∈ searchPasses b tf k, ds.2 = rootValue b tf ds.1 :=
-  Proofs.Minimax.searchPasses_exact b hwf tf k hnp
+    ∀ ds ∈ searchPasses false b tf k, ds.2 = rootValue false b tf ds.1 :=
+  Proofs.Minimax.searchPasses_exact false b hwf tf k hnp
 
 /-- **plain minimax is colour-symmetric** -/
 theorem rootValue_mirror (b : Board) (hwf : b.WF = true) (depth : Nat) :
-    rootValue b.mirror [] depth = negScore (rootValue b [] depth) :=
+    rootValue false b.mirror [] depth = negScore (rootValue false b [] depth) :=
   Proofs.Minimax.rootValue_mirror b hwf depth
 
 /-- the mirrored board is well formed and is the colour mirror of the rules' position -/
@@ -53,7 +57,7 @@ theorem abs_mirror (b : Board) (hp : b.raw.partitionOk = true) (hc : b.castle < 
     abs b.mirror = (abs b).mirror := Proofs.BoardSym.abs_mirror b hp hc
 
 /-- the evaluation and the move generator under the mirror -/
-theorem eval_mirror (b : Board) (h : b.WF = true) : eval b.mirror = negScore (eval b) :=
+theorem eval_mirror (b : Board) (h : b.WF = true) : eval false b.mirror = negScore (eval false b) :=
   Proofs.BoardSym.eval_mirror b h
 theorem legals_mirror (b : Board) (h : b.WF = true) :
     (mvsOf (legals b.mirror)).Perm ((mvsOf (legals b)).map Move.mirror) := Proofs.BoardSym.legals_mirror b h
